@@ -125,6 +125,7 @@ type Interp struct {
 	lastNow    *Term
 	firstNow   *Term
 	symNames   map[string]StrV
+	pfRE       []*regexModel
 	clockWindow *Term
 	pid        *Term
 
